@@ -1152,7 +1152,7 @@ def population_program(rng):
         i = sels[rng.randrange(len(sels))]
         S = {"t": "var", "i": i}
         C = {"t": "cls", "name": type(env.heap[i]).QUERY_CLS.__name__}
-        how = rng.choice(["select", "from", "join", "in", "values"])
+        how = rng.choice(["select", "from", "join", "in", "values", "ctas", "insert_select"])
         if how == "select":
             x = {"t": "meth", "x": {"t": "meth", "x": C, "m": "from_", "a": [TB]}, "m": "select", "a": [F(TB, "x"), S]}
         elif how == "from":
@@ -1162,6 +1162,11 @@ def population_program(rng):
             sub = {"t": "meth", "x": S, "m": "as_", "a": ["sj"]}
             x = {"t": "meth", "x": {"t": "join", "x": {"t": "meth", "x": C, "m": "from_", "a": [TB]}, "item": sub, "how": None,
                                     "fin": "cross", "a": []}, "m": "select", "a": [F(TB, "x")]}
+        elif how == "ctas":
+            x = {"t": "meth", "x": {"t": "meth", "x": C, "m": "create_table", "a": ["t_new"]}, "m": "as_select", "a": [S]}
+        elif how == "insert_select":
+            x = {"t": "meth", "x": {"t": "meth", "x": {"t": "meth", "x": C, "m": "into", "a": [TB]}, "m": "from_",
+                                    "a": [{"t": "meth", "x": S, "m": "as_", "a": ["sj"]}]}, "m": "select", "a": ["*"]}
         elif how == "values":
             # a scalar sub-query as a VALUES item; it may carry an alias (its own, or the automatic one it got as
             # somebody's FROM source)
@@ -1173,6 +1178,8 @@ def population_program(rng):
         k = g.emit({"op": "new", "x": x})
         env.heap.append(engine.exec_op(env, g.program[k]))
         knobs.setdefault("_parents", []).append(k)
+        if how in ("ctas", "insert_select"):
+            knobs.setdefault("_templates", []).append((k, i))
     return g.program, env, knobs
 
 
@@ -1183,6 +1190,7 @@ def population_run(seed, run, rng):
 
     class g_parents:  # indices of the template parents appended by population_program
         idx = set(knobs.pop("_parents", ()))
+        templates = list(knobs.pop("_templates", ()))
     res = {"run": run, "config": "population", "violations": [], "harness": [], "discard": None, "merges": 0,
            "calls": len(program), "actors": 0, "stats": collections.Counter(), "shape": None, "nontrivial": True,
            "kind": "population", "cls": "*", "groups": []}
@@ -1263,6 +1271,30 @@ def population_run(seed, run, rng):
                     "program": p2, "victim": mp[j], "sub": mp[i], "share_tables": knobs["share_tables"],
                     "rider": "subquery-context",
                     "detail": f"on its own: {inner[:200]}  |  inside the parent: {outer[:300]}"}})
+    # CREATE TABLE ... AS <S>, INSERT ... SELECT * FROM (<S>): parents of other statement kinds
+    for j, i in g_parents.templates:
+        P, S = env.heap[j], env.heap[i]
+        if not (engine.is_object_slot(P) and engine.is_object_slot(S)) or type(S).__name__ != "SQLLiteQueryBuilder":
+            continue
+        ctx = L.CTX["SQLLiteQuery"]
+        try:
+            outer = P.get_sql(ctx)
+            inner = S.get_sql(ctx.copy(with_alias=False, subquery=False))
+        except Exception:  # noqa: BLE001
+            continue
+        if not outer or not inner or sqlite_parse_error(inner) is not None:
+            continue
+        res["stats"]["sqlite_nested_prepared"] += 1
+        err = sqlite_parse_error(outer)
+        if err:
+            sig = f"{PROP}:rider:sqlite-parse-nested:population"
+            if not any(x["signature"] == sig for x in res["violations"]):
+                keep = sorted(lang.cone(program, j))
+                p2, mp = shrink.slice_program(program, keep)
+                res["violations"].append({"signature": sig, "payload": {
+                    "property": PROP, "seed": seed, "run": run, "signature": sig, "kind": "population-nested",
+                    "program": p2, "victim": mp[j], "sub": mp[i], "share_tables": knobs["share_tables"],
+                    "rider": "sqlite-parse-nested", "detail": f"{err}: {outer[:300]}"}})
     res["shape"] = runner.digest([op.get("op") + ":" + str(op.get("m", "")) for op in program])
     res["digest"] = res["xdigest"] = runner.digest([program, trail])
     return res, program
